@@ -608,6 +608,8 @@ def rand_opts(rng, tool):
 def case_one(E, R, idx, rng, cdir, flavour="rel"):
     data, suffix, info = gen_input(E, rng, cdir)
     tool = rng.choice(["xz-dc"] * 8 + ["xz-d"] * 3 + ["xz-t"] * 2 + ["xzdec"] * 4 + ["lzmadec"] * 3)
+    if info["cls"] == "unknown-format" and rng.random() < 0.5:
+        tool = "xz-dc"                        # (the pass-through path exists only there)
     if info["cls"] == "valid-size-aligned":  # every tool that reads this format gets its share of these files
         tool = rng.choice(["xz-dc", "xz-d", "xz-t"] + (["lzmadec"] * 3 if suffix == ".lzma" else ["xzdec"] * 3))
     if tool == "xz-dc":
@@ -621,7 +623,7 @@ def case_one(E, R, idx, rng, cdir, flavour="rel"):
     o = rand_opts(rng, tool)
     if sink == "nosparse":
         o["no_sparse"] = True
-    if info["cls"] == "unknown-format" and tool == "xz-dc" and rng.random() < 0.6:
+    if info["cls"] == "unknown-format" and tool == "xz-dc" and rng.random() < 0.8:
         o["force"] = True                     # xz -dcf: unrecognised input is copied unchanged
     decode_run(E, R, idx, rng, cdir, "r0", data, suffix, tool, sink, o, info, flavour=flavour)
 
